@@ -196,7 +196,7 @@ theorem repo_panics_set_nil_leaf_ptr :
 
 /-- `assign-nil-src`: Set with a nil `*int` as the assigned value dereferences it. -/
 theorem repo_panics_assign_nil_src :
-    (setM GenCfg.repo exNode .ptr exVal [seg "L", seg "0" (some 0)] srcNilIntPtr true).isPanic = true := by
+    (setM GenCfg.original exNode .ptr exVal [seg "L", seg "0" (some 0)] srcNilIntPtr true).isPanic = true := by
   decide
 
 /-- `deq-ptr-leaf-nil`: DeepEqual dereferences the nil `*int` field `P` of both arguments. -/
